@@ -20,6 +20,7 @@ class BFSResult:
         self.samples = []
         self.capped = False
         self.terminal = 0
+        self.per_sig = {}
 
 
 def build(initial, apply, hist):
@@ -57,7 +58,11 @@ def bfs(initial, apply, enabled, canon, invariant, max_depth,
             bad = list(invariant(st, h2) or ())
             if bad:
                 for v in bad:
-                    if len(res.violations) < max_violations:
+                    # cap per signature, not globally: a known finding must not
+                    # crowd out a different violation
+                    n = res.per_sig.get(v[0], 0)
+                    res.per_sig[v[0]] = n + 1
+                    if n < 3 and len(res.per_sig) <= max(200, max_violations):
                         res.violations.append((v[0], v[1], h2))
                 continue  # do not expand beyond a violating state
             k = canon(st)
